@@ -10,8 +10,8 @@
 (*             separators between them;                                      *)
 (*    agg      aggregate columns, no GROUP BY: every accepted row is kept    *)
 (*             raw, one row is written after the walk;                       *)
-(*    group    GROUP BY: one row per partition of the raw rows, separators   *)
-(*             between them.                                                 *)
+(*    group    GROUP BY: one row per partition of the raw rows (at most      *)
+(*             LIMIT of them), separators between them.                      *)
 (* Header before anything, footer after everything.  Tokens written:         *)
 (* [t |-> "H" | "F" | "S" | "R", k |-> arrival index of the accepted entry  *)
 (* for a streamed row, else 0].                                              *)
@@ -68,7 +68,8 @@ Offer(acc) ==
 Plan(parts) ==
   /\ pc = "run" /\ WalkOver /\ todo = -1
   /\ (IF raw = 0 THEN parts = 0 ELSE parts \in 1 .. raw)
-  /\ todo' = CASE mode = "stream" -> 0 [] mode = "ordered" -> kept [] mode = "agg" -> 1 [] mode = "group" -> parts
+  /\ todo' = CASE mode = "stream" -> 0 [] mode = "ordered" -> kept [] mode = "agg" -> 1
+                [] mode = "group" -> (IF limit = 0 THEN parts ELSE Min(parts, limit))          \* LIMIT applies to the group rows
   /\ pc' = "compute"
   /\ UNCHANGED <<mode, limit, arr, idx, found, kept, raw, out>>
 
